@@ -365,4 +365,22 @@ theorem vert_u16_sse4_chunk4_eq_portable (p : Nat) (rows : List (List Int)) (ks 
 theorem vert_u16_sse4_source_as_modelled : Fir.Gen.vert_u16_sse4_skeleton =
     "_mm_set1_epi64x(1 << (precision - 1)) ; chunks_exact_mut(16) ; chunks_exact(2) ; remainder() ; iter_2_rows(y_start, max_rows) ; _mm_set1_epi64x(two_coeffs[r] as i64) ; simd_utils::loadu_si128(src_rows[r], src_x + x * 8) ; _mm_shuffle_epi8(source, c_shuffles[i]) ; _mm_add_epi64(sums[i][x], _mm_mul_epi32(c_i64x2, coeff_i64x2)) ; first() ; iter_rows(y_start + y) ; _mm_set1_epi64x(k as i64) ; simd_utils::loadu_si128(components, src_x + x * 8) ; _mm_shuffle_epi8(source, c_shuffles[i]) ; _mm_add_epi64(sums[i][x], _mm_mul_epi32(c_i64x2, coeff_i64x2)) ; _mm_storeu_si128(c_buf.as_mut_ptr() as *mut __m128i, sum[x]) ; normalizer.clip(c_buf[0]) ; normalizer.clip(c_buf[1]) ; into_remainder() ; chunks_exact_mut(8) ; chunks_exact(2) ; remainder() ; iter_2_rows(y_start, max_rows) ; _mm_set1_epi64x(two_coeffs[0] as i64) ; _mm_set1_epi64x(two_coeffs[1] as i64) ; simd_utils::loadu_si128(src_rows[r], src_x) ; _mm_shuffle_epi8(source, c_shuffles[i]) ; _mm_add_epi64(sums[i], _mm_mul_epi32(c_i64x2, coeffs_i64[r])) ; first() ; iter_rows(y_start + y) ; _mm_set1_epi64x(k as i64) ; simd_utils::loadu_si128(components, src_x) ; _mm_shuffle_epi8(source, c_shuffles[i]) ; _mm_add_epi64(sums[i], _mm_mul_epi32(c_i64x2, coeff_i64x2)) ; _mm_storeu_si128(c_buf.as_mut_ptr() as *mut __m128i, sum) ; normalizer.clip(c_buf[0]) ; normalizer.clip(c_buf[1]) ; into_remainder() ; chunks_exact_mut(4) ; chunks_exact(2) ; remainder() ; iter_2_rows(y_start, max_rows) ; _mm_set1_epi64x(two_coeffs[0] as i64) ; _mm_set1_epi64x(two_coeffs[1] as i64) ; _mm_set_epi64x(comp_x4[1] as i64, comp_x4[0] as i64) ; _mm_add_epi64(c01, _mm_mul_epi32(c_i64x2, coeffs_i64[r])) ; _mm_set_epi64x(comp_x4[3] as i64, comp_x4[2] as i64) ; _mm_add_epi64(c23, _mm_mul_epi32(c_i64x2, coeffs_i64[r])) ; first() ; iter_rows(y_start + y) ; _mm_set1_epi64x(k as i64) ; _mm_set_epi64x(comp_x4[1] as i64, comp_x4[0] as i64) ; _mm_add_epi64(c01, _mm_mul_epi32(c_i64x2, coeff_i64x2)) ; _mm_set_epi64x(comp_x4[3] as i64, comp_x4[2] as i64) ; _mm_add_epi64(c23, _mm_mul_epi32(c_i64x2, coeff_i64x2)) ; _mm_storeu_si128(c_buf.as_mut_ptr() as *mut __m128i, c01) ; normalizer.clip(c_buf[0]) ; normalizer.clip(c_buf[1]) ; _mm_storeu_si128(c_buf.as_mut_ptr() as *mut __m128i, c23) ; normalizer.clip(c_buf[0]) ; normalizer.clip(c_buf[1]) ; into_remainder() ; convolution_by_u16(src_view, normalizer, initial, dst_u16, src_x, y_start, coeffs,)" := by rfl
 
+/-! ### the AVX2 vertical pass for 16-bit components
+
+    src/convolution/vertical_u16/avx2.rs keeps 16 components in a 256-bit register: every instruction it uses
+    (`_mm256_shuffle_epi8`, `_mm256_mul_epi32`, `_mm256_add_epi64`) acts on the two 128-bit halves independently, each half
+    of every mask is the SSE4.1 mask (below), rows are taken one by one, and the four lanes of `sum[i]` are stored to
+    components `2i, 2i+1` (low half) and `2i+8, 2i+9` (high half): the 16-component step is `block8 x ++ block8 (x + 8)`
+    = `Fir.SimdVertU16.chunk16`.  The tail (< 16 components) copies the components into a zeroed 16-element buffer and
+    runs the same code; each lane depends only on its own component, so its first components are those of
+    `chunk16` as well. -/
+
+theorem vert_u16_avx2_masks :
+    Fir.Gen.vert_u16_avx2_shuffles =
+      [(Fir.Gen.vert_u16_sse4_sh0, Fir.Gen.vert_u16_sse4_sh0), (Fir.Gen.vert_u16_sse4_sh1, Fir.Gen.vert_u16_sse4_sh1),
+       (Fir.Gen.vert_u16_sse4_sh2, Fir.Gen.vert_u16_sse4_sh2), (Fir.Gen.vert_u16_sse4_sh3, Fir.Gen.vert_u16_sse4_sh3)] := by decide
+
+theorem vert_u16_avx2_source_as_modelled : Fir.Gen.vert_u16_avx2_skeleton =
+    "_mm256_set1_epi64x(1 << (precision - 1)) ; chunks_exact_mut(16) ; iter_rows(y_start) ; _mm256_set1_epi64x(coeff as i64) ; simd_utils::loadu_si256(components, src_x) ; _mm256_shuffle_epi8(source, shuffles[i]) ; _mm256_add_epi64(sum[i], _mm256_mul_epi32(comp_i64x4, coeff_i64x4)) ; _mm256_storeu_si256(comp_buf.as_mut_ptr() as *mut __m256i, sum[i]) ; get_unchecked_mut(i * 2) ; normalizer.clip(comp_buf[0]) ; get_unchecked_mut(i * 2 + 1) ; normalizer.clip(comp_buf[1]) ; get_unchecked_mut(i * 2 + 8) ; normalizer.clip(comp_buf[2]) ; get_unchecked_mut(i * 2 + 9) ; normalizer.clip(comp_buf[3]) ; into_remainder() ; iter_rows(y_start) ; get_unchecked(src_x..) ; _mm256_set1_epi64x(coeff as i64) ; simd_utils::loadu_si256(&buf, 0) ; _mm256_shuffle_epi8(source, shuffles[i]) ; _mm256_add_epi64(sum[i], _mm256_mul_epi32(comp_i64x4, coeff_i64x4)) ; _mm256_storeu_si256(comp_buf.as_mut_ptr() as *mut __m256i, sum[i]) ; get_unchecked_mut(i * 2) ; normalizer.clip(comp_buf[0]) ; get_unchecked_mut(i * 2 + 1) ; normalizer.clip(comp_buf[1]) ; get_unchecked_mut(i * 2 + 8) ; normalizer.clip(comp_buf[2]) ; get_unchecked_mut(i * 2 + 9) ; normalizer.clip(comp_buf[3])" := by rfl
+
 end Fir.C02
